@@ -6,6 +6,8 @@
                       LoadBlockStoreState / NewBlockStore
      state/store.go   save, saveValidatorsInfo, saveConsensusParamsInfo, PruneStates,
                       LoadValidators, LoadConsensusParams, lastStoredHeightFor
+     consensus/state.go  pruneBlocks (the composite prune of both stores, end of this file)
+     state/store.go   SaveABCIResponses, LoadABCIResponses (presence only)
    No proofs in this file.
 
    Conventions (DESIGN.md §2.5, A.4)
@@ -296,13 +298,15 @@ Inductive skey :=
 | SKVals (h : Z)         (* "validatorsKey:h" *)
 | SKParams (h : Z)       (* "consensusParamsKey:h" *)
 | SKABCI (h : Z)         (* "abciResponsesKey:h" *)
-| SKState.               (* "stateKey" *)
+| SKState                (* "stateKey" *)
+| SKLastABCI.            (* "lastABCIResponseKey" *)
 
 Inductive sval :=
 | SVVals (lhc : Z) (vs : option Z)      (* ValidatorsInfo{LastHeightChanged, ValidatorSet?} (hash of the set) *)
 | SVParams (lhc : Z) (ps : option Z)    (* ConsensusParamsInfo{LastHeightChanged, ConsensusParams (None = empty)} *)
 | SVABCI
-| SVState (last : Z).                   (* State (its LastBlockHeight) *)
+| SVState (last : Z)                    (* State (its LastBlockHeight) *)
+| SVLastABCI (h : Z).                   (* ABCIResponsesInfo{Height} *)
 
 Definition skey_eqb (a b : skey) : bool :=
   match a, b with
@@ -310,6 +314,7 @@ Definition skey_eqb (a b : skey) : bool :=
   | SKParams h, SKParams h' => h =? h'
   | SKABCI h, SKABCI h' => h =? h'
   | SKState, SKState => true
+  | SKLastABCI, SKLastABCI => true
   | _, _ => false
   end.
 
@@ -489,3 +494,107 @@ Fixpoint saudit_range (K : Z) (d : sdb) (n : nat) (h : Z) : Z * Z :=
 
 Definition saudit (K : Z) (d : sdb) (lo hi : Z) : Z * Z :=
   saudit_range K d (Z.to_nat (hi - lo + 1)) lo.
+
+(* ================================================================== the composite prune
+
+   consensus/state.go
+
+     func (cs *State) pruneBlocks(retainHeight int64) (uint64, error) {
+         base := cs.blockStore.Base()
+         if retainHeight <= base { return 0, nil }
+         pruned, err := cs.blockStore.PruneBlocks(retainHeight)
+         if err != nil { return 0, fmt.Errorf("failed to prune block store: %w", err) }
+         err = cs.blockExec.Store().PruneStates(base, retainHeight)
+         if err != nil { return 0, fmt.Errorf("failed to prune state database: %w", err) }
+         return pruned, nil
+     }
+
+   run by finalizeCommit after SaveBlock and ApplyBlock (SaveABCIResponses, Save(state)) when the
+   application's Commit returned a retain height > 0.  The two stores live in two databases; a
+   write step of the composite is a write step of one of them, the composite's execution is the
+   concatenation of the two halves' write sequences in the order of the calls, and a crash keeps
+   a prefix of that concatenation (each half ends in a sync write).  The order of the two calls
+   is a parameter so that the swapped order can be exhibited as refuted. *)
+
+Inductive xstep :=
+| XB (s : bstep)         (* a write step on blockstore.db *)
+| XS (s : sstep).        (* a write step on state.db *)
+
+Definition xdb := (bdb * sdb)%type.
+
+Definition xapply (d : xdb) (s : xstep) : xdb :=
+  match s with
+  | XB s => (bapply (fst d) s, snd d)
+  | XS s => (fst d, sapply (snd d) s)
+  end.
+Definition xreplay (l : list xstep) (d : xdb) : xdb := fold_left xapply l d.
+
+(* state/store.go SaveABCIResponses(h) with DiscardABCIResponses = false *)
+Definition save_abci (h : Z) : list sstep :=
+  [SSet (SKABCI h) SVABCI; SSetSync SKLastABCI (SVLastABCI h)].
+
+(* LoadABCIResponses(h) succeeds *)
+Definition load_abci (d : sdb) (h : Z) : bool :=
+  match sget d (SKABCI h) with Some SVABCI => true | _ => false end.
+
+Inductive prune_order := BlocksFirst | StatesFirst.
+
+(* result code: 0 nil error (also when retain <= base: nothing to do); 1..3 PruneBlocks refused
+   (prune_res codes); 20 + c: PruneStates returned its error c.  The memory state of the block
+   store after the call and the write steps performed. *)
+Definition composite_prune_gen (ord : prune_order) (K B : Z) (m : mem) (bd : bdb) (sd : sdb) (retain : Z)
+  : Z * mem * list xstep :=
+  let base := m_base m in
+  if retain <=? base then (0, m, [])
+  else
+    match ord with
+    | BlocksFirst =>
+      match prune_blocks B m bd retain with
+      | PErr c => (c, m, [])
+      | POk _ m' l _ =>
+        let '(sc, sl) := prune_states K B sd base retain in
+        ((if sc =? 0 then 0 else 20 + sc), m', map XB l ++ map XS sl)
+      end
+    | StatesFirst =>
+      let '(sc, sl) := prune_states K B sd base retain in
+      if negb (sc =? 0) then (20 + sc, m, map XS sl)
+      else match prune_blocks B m bd retain with
+           | PErr c => (c, m, map XS sl)
+           | POk _ m' l _ => (0, m', map XS sl ++ map XB l)
+           end
+    end.
+
+(* the order the code uses *)
+Definition composite_prune := composite_prune_gen BlocksFirst.
+
+(* ---- the cross-store audit: every block the block store retains has its state-store records.
+   For h in [base, height]: 1 LoadValidators(h) fails, 2 LoadConsensusParams(h) fails or is
+   empty, 3 LoadABCIResponses(h) fails, 4 the validator set is not the one the block header
+   names, 5 the parameters are not the ones the header names; 6 (at height + 1) the validators
+   of the next height do not load.  (0,0) = all present. *)
+Definition xaudit_height (K : Z) (bd : bdb) (sd : sdb) (h : Z) : Z :=
+  match load_validators K sd h with
+  | None => 1
+  | Some v =>
+    match load_consensus_params sd h with
+    | Some (Some p) =>
+      if negb (load_abci sd h) then 3
+      else match load_meta bd h with
+           | Some (_, _, vh, ph) => if negb (v =? vh) then 4 else if negb (p =? ph) then 5 else 0
+           | None => 0      (* reported by the block store audit *)
+           end
+    | _ => 2
+    end
+  end.
+
+Fixpoint xaudit_range (K : Z) (bd : bdb) (sd : sdb) (n : nat) (h : Z) : Z * Z :=
+  match n with
+  | O => match load_validators K sd h with Some _ => (0, 0) | None => (h, 6) end
+  | S n' => let r := xaudit_height K bd sd h in
+            if r =? 0 then xaudit_range K bd sd n' (h + 1) else (h, r)
+  end.
+
+Definition xaudit (K : Z) (d : xdb) : Z * Z :=
+  let m := load_state (fst d) in
+  if (m_height m <=? 0) || (m_base m <? 1) || (m_height m <? m_base m) then (0, 0)
+  else xaudit_range K (fst d) (snd d) (Z.to_nat (m_height m - m_base m + 1)) (m_base m).
